@@ -29,6 +29,8 @@ def run(res, pool, tier, seed):
                 dict(module="MC_Move.tla", tag="gen-sim", invariants=["Emit"], constants=consts(seed, 6, 1), timeout=3600, batch=25,
                      simulate="num=500", depth=7, tlc_seed=seed + 11, workers=8, spec="SpecSim")]
     engine.run_jobs(res, jobs, pool)
+    import traces
+    traces.run_for(res, ["unit_tests", "driver"], {"C07"}, seed=seed + 4, nsessions=300 if tier == "quick" else 3000)
 
 
 def vec(v, pose, num):
